@@ -10,6 +10,7 @@
 WORLDS = {
     "exec": {},
     "mod": {},
+    "ring": {"extra_pkgs": ["simkv"], "simos": ["ring/tokens.go", "ring/lifecycler.go", "ring/basic_lifecycler_delegates.go"]},
     "cache": {},
     "cas": {"requires": ["github.com/anishathalye/porcupine@v1.3.0"],
             "shims": {"kv/zz_verif_sim.go": "shims/kv_sim.go", "kv/consul/zz_verif_sim.go": "shims/consul_sim.go", "kv/memberlist/zz_verif_sim.go": "shims/memberlist_sim.go"}},
@@ -89,6 +90,18 @@ PROPS["C07"] = {
     "level_note": "trusted: simulator engine, porcupine v1.3.0, the register model; values are made unique per write by a marker so every read is attributable",
     "design_ref": "DESIGN.md section 5 C07",
     "technique": "deterministic simulation (seeded schedules at CAS read/modify/write points, pre-commit fault injection) + porcupine linearizability check of recorded histories",
+}
+
+_RING_REAL = ["ring.Lifecycler", "ring.BasicLifecycler + InstanceRegister / LeaveOnStopping / TokensPersistency / AutoForget delegates", "ring.Desc model and codec", "tokens file code (ring/tokens.go)", "services.BasicService", "kv/consul in-memory client + mockKV (shared store)"]
+_RING_STUB = ["kv seam (worlds/simkv): per-actor kv.Client wrapper with scheduling points, fault injection, commit recording, harness-owned WatchKey", "token generators (tiny alphabet + seeded)", "operator (forget, wipe)", "os for the tokens file (simrt/simos, in-memory disk)"]
+PROPS["C08"] = {
+    "world": "ring", "level": "exploration", "quick_s": 25, "thorough_s": 600,
+    "rule": "one evaluation = one simulated history (up to 5 virtual minutes) of 1..5 lifecyclers (classic and basic) on one store: starts, external state changes, read-only toggles, token claims, stops with/without unregistering, restarts, operator forget, KV error windows, lost acks, forced retries, ring wipes, stalls and clock advances; every committed write is attributed to its writer and checked; non-trivial = at least two lifecyclers and at least one CAS retried because of contention; distinct = distinct released-task/action sequence hash among non-trivial runs",
+    "real": _RING_REAL, "stub": _RING_STUB,
+    "assumptions": _ASSUME_COMMON + ["heartbeat liveness is only demanded in windows where the store accepts the writer's calls and the scheduler did not stall it", "tokens inherited from the ring or a tokens file are exempt from the 'not visible as another instance's token' clause, as the statement says"],
+    "level_text": "seeded exploration of lifecycler histories with per-commit attribution (diff of in/out restricted to the writer's entry, state edges, timestamps, registration time, tokens at activation, readiness); sampling, not proof",
+    "level_note": "trusted: simulator engine, simkv seam (commit attribution is exact: the wrapper sees which caller's function produced the accepted value), the edge table written from the statement",
+    "design_ref": "DESIGN.md section 5 C08",
 }
 
 HOOK_COMMITS = []
